@@ -44,6 +44,7 @@ type World struct {
 	renv       *rangeEnv
 	nilable    map[string]string
 	retNonNil  map[*ssa.Function]bool
+	alias      *aliasEngine
 }
 
 func repoDir() string {
